@@ -39,8 +39,19 @@ def fit_once(cfg, seed):
 
     opt.get_sensors = tapped
     model = SSPOR(basis=models.make_basis(cfg["basis"], cfg["n_modes"]), optimizer=opt, n_sensors=cfg["ns"])
+    kw = {}
+    g = cfg.get("gqr_kw")
+    if g:
+        # keyword arguments of GQR handed through SSPOR.fit: a sensor budget alone, or a whole region constraint
+        kw["n_sensors"] = g["n_sensors"]
+        if g.get("constraint_option"):
+            from pysensors.optimizers import QR
+            ref = SSPOR(basis=models.make_basis(cfg["basis"], cfg["n_modes"]), optimizer=QR()).fit(np.array(cfg["X"], dtype=float), quiet=True, seed=0)
+            kw.update({"idx_constrained": np.array(g["idx_constrained"], dtype=int), "n_const_sensors": g["n_const_sensors"],
+                       "all_sensors": np.array(QR().fit(ref.basis_matrix_.copy()).get_sensors()).copy(),
+                       "constraint_option": g["constraint_option"]})
     try:
-        model.fit(np.array(cfg["X"], dtype=float), quiet=True, seed=seed)
+        model.fit(np.array(cfg["X"], dtype=float), quiet=True, seed=seed, **kw)
     finally:
         del opt.get_sensors
     return np.array(model.get_all_sensors()).tolist(), int(model.basis_matrix_.shape[1]), pre.get("r")
@@ -77,6 +88,15 @@ def run(ctx: C.Ctx):
             nm = rng.randint(1, ne)
         cfg = {"basis": basis, "n_modes": nm, "opt": rng.choice(["qr", "ccqr", "gqr"]), "X": X,
                "ns": rng.choice([None, rng.randint(1, nf)])}
+        if cfg["opt"] == "gqr" and rng.random() < 0.6:
+            k = rng.randint(1, max(1, min(ne, nf)))
+            g = {"n_sensors": k}
+            if rng.random() < 0.5 and nf >= 2:
+                L = sorted(rng.sample(range(nf), rng.randint(1, nf - 1)))
+                g.update({"idx_constrained": L, "n_const_sensors": rng.randint(0, min(k, len(L))),
+                          "constraint_option": rng.choice(["max_n", "exact_n", "predetermined"])})
+            cfg["gqr_kw"] = g
+            ctx.count("gqr_keywords:" + g.get("constraint_option", "n_sensors_only"))
         seeds = [0, 1, 2, rng.randint(3, 10 ** 6)] + ([rng.randint(0, 2 ** 31), 2 ** 32 + 5, 12345678901] if ctx.thorough else [])
         ctx.evaluations += 1
         ctx.count(f"{basis}/{cfg['opt']}")
